@@ -152,7 +152,7 @@ theorem rpcRenew2_clearing_safe {fx : Bool} {rh expUH h : Nat} {e r : Rev} {fv :
     ∃ clearing pay, clearingRevision e fv = .ok clearing ∧ ∀ c ∈ clearingClauses e clearing pay, c.2 = true := by
   unfold rpcRenew2 rpcRenew2Body at hh
   res_ok' at hh
-  obtain ⟨_, hlock, hrh, clearing, hclr, evr, _, fp, hfp, _⟩ := hh
+  obtain ⟨_, hlock, hrh, _, clearing, hclr, evr, _, fp, hfp, _⟩ := hh
   exact ⟨clearing, _, hclr, validateClearing_accept_safe hfp hU (fun hf => ⟨hwf hf, hlock⟩)⟩
 
 /-! ### the table -/
